@@ -15,12 +15,50 @@ UNITS = {'source_bfs_step': dict(file='src/Source.cpp', locator=r'std::vector<So
     region=dict(start=r'SourceCont\s+current\s*=\s*todo\.front\(\)\s*;', end=r'todo\.push\(\{[^;]*;\s*\}\s*\}(?=\s*\}\s*return\s+results)',
                 params=[('const util::Filter<Source>::type &', 'filter'), ('size_t', 'max_depth'), ('std::queue<SourceCont> &', 'todo'), ('std::vector<Source> &', 'results')]),
     loops={0: '__CPROVER_assigns(it, gh_enq)\n__CPROVER_loop_invariant(it <= children.n && gh_enq == it)\n__CPROVER_decreases(children.n - it)'})}
+def filter_ctor(ctx, toks):
+    """nix::util::SourceFilter<nix::T>(KEY) / MetadataFilter<nix::T>(KEY)  (construction of a filter functor)  ->  mk_SourceFilter(KEY) / mk_MetadataFilter(KEY)"""
+    out = []; i = 0
+    while i < len(toks):
+        if toks[i].t in ('SourceFilter', 'MetadataFilter') and i + 1 < len(toks) and toks[i + 1].t == '<':
+            j = i + 2; d = 1
+            while d:
+                if toks[j].t == '<': d += 1
+                elif toks[j].t == '>': d -= 1
+                j += 1
+            if toks[j].t == '(':
+                k = len(out)
+                while k and out[k - 1].t in ('nix', 'util', '::'): k -= 1
+                ws = out[k].ws if k < len(out) else toks[i].ws
+                del out[k:]
+                out.append(Tok('id', 'mk_' + toks[i].t, ws)); i = j; fire(ctx, 'filter-ctor'); continue
+        out.append(toks[i]); i += 1
+    return out
+BCL = ['Source', 'Section', 'Block', 'File', 'DataArray', 'Tag', 'MultiTag', 'nstring', 'EntFilter']
+def br(cls, meth, ret, byblock=False):
+    f = 'src/%s.cpp' % cls
+    la = r'(?=\s*const\s+Block\s*&\s*b\s*\))' if byblock else r'(?=\s*\))'
+    return dict(file=f, cls=cls, cls_file='include/nix/%s.hpp' % cls, classes=BCL, pre_rules=[filter_ctor], inherited_methods=['id', 'name'], locator=r'%s\s+%s::%s\s*\(%s' % (ret, cls, meth, la))
+BUNITS = {
+    'Source_referringDataArrays': br('Source', 'referringDataArrays', r'std::vector<nix::DataArray>'),
+    'Source_referringTags': br('Source', 'referringTags', r'std::vector<nix::Tag>'),
+    'Source_referringMultiTags': br('Source', 'referringMultiTags', r'std::vector<nix::MultiTag>'),
+    'Source_parentSource': br('Source', 'parentSource', r'nix::Source'),
+    'Section_referringBlocks': br('Section', 'referringBlocks', r'std::vector<nix::Block>'),
+    'Section_referringDataArrays_b': br('Section', 'referringDataArrays', r'std::vector<nix::DataArray>', True),
+    'Section_referringTags_b': br('Section', 'referringTags', r'std::vector<nix::Tag>', True),
+    'Section_referringMultiTags_b': br('Section', 'referringMultiTags', r'std::vector<nix::MultiTag>', True),
+    'Section_referringSources_b': br('Section', 'referringSources', r'std::vector<nix::Source>', True),
+}
+UNITS.update(BUNITS)
+BEXTRA = 'int gh_q_calls, gh_q_container, gh_parent_calls; query_kind gh_q_kind; EntFilter gh_q_filter; vec_Ent gh_answer;\n'
 EXTRA = ('SourceCont gh_cur; int gh_pops, gh_filter_calls, gh_filter_node, gh_filter_ok, gh_res_pushes, gh_res_node; size_t gh_enq; Source *gh_children; size_t gh_nchildren; int gh_children_of;\n')
 JOBS = [dict(name='source_bfs_step', bodies=['source_bfs_step'], enforce=['source_bfs_step'], replace=[], extra_c=EXTRA, loop_contracts=True,
              expect_kinds=['postcondition', 'loop_invariant_base', 'loop_invariant_step'], timeout=300),
         dict(name='source_bfs_step[bounded]', bodies=['source_bfs_step'], enforce=['source_bfs_step'], replace=[], extra_c=EXTRA, loop_contracts=False, defines=['NIX_NO_LOOP_CONTRACTS', 'C20_BOUNDED=3'],
              cbmc_flags=['--unwind', '5', '--unwinding-assertions'], expect_kinds=['postcondition', 'unwind'], timeout=300, bounded='at most 3 children, loop unwound completely (twin without loop contract)')]
-SPEC = dict(contracts=['c20_search.h'], stubs=[], units=UNITS, jobs=JOBS,
+for j in JOBS: j['includes'] = ['c20_search.h']
+JOBS += [dict(name=fn, bodies=[fn], enforce=[fn], replace=[], extra_c=BEXTRA, includes=['c20_backref.h'], expect_kinds=['postcondition'], timeout=300) for fn in BUNITS]
+SPEC = dict(contracts=['c20_search.h', 'c20_backref.h'], stubs=[], units=UNITS, jobs=JOBS,
             trusted_base=['CBMC 6.11.0 (C front end, --dfcc, SAT back end)', 'vlib/cxx2c.py idiom map incl. region units',
                           'ASSUMED: std::queue is first-in first-out; std::vector::push_back appends; the filter is a pure predicate; Source::sources() lists the children in index order',
                           'struct SourceCont {Source entity; size_t depth;} restated in the contract header'],
